@@ -134,9 +134,12 @@ Proof. vm_compute. reflexivity. Qed.
 (* an 8-bit object is promoted to int before ++ and wraps when stored back; signed overflow and a
    form the translator does not know are flagged undefined *)
 Example uint8_increment_wraps :
-  match run [(V_PBLKB, (U8, Some 255%Z))] [SAssign V_PBLKB (Some OAdd) (ELit S32 1)] with
-  | (e, ok) => (get e V_PBLKB, ok)
-  end = ((U8, 0%Z, true), true).
+  let r := run [(V_PBLKB, (U8, Some 255%Z))] [SAssign V_PBLKB (Some OAdd) (ELit S32 1)] in
+  (get (renv r) V_PBLKB, rdef r, rok r) = ((U8, 0%Z, true), true, true).
+Proof. vm_compute. reflexivity. Qed.
+(* an assert that does not hold is reported, not skipped *)
+Example failing_assert_is_seen :
+  rok (run [(V_BUFLEN, (U64, Some 5%Z))] [SAssert (EBin OGe (EVar V_BUFLEN) (ELit S32 16))]) = false.
 Proof. vm_compute. reflexivity. Qed.
 Example signed_overflow_is_undefined :
   snd (eval [] (EBin OAdd (ELit S32 2147483647) (ELit S32 1))) = false /\ snd (eval [] EUnknown) = false.
